@@ -178,6 +178,16 @@ func c15Sums(args []string) int {
 			{`<rec id="a"><qty>1</qty>alpha<u>1</u>beta</rec>`, `<rec id="a"><qty>1</qty>gamma<u>1</u>delta</rec>`, "mixed-content text"},
 			{`<rec id="a"><qty>1</qty><g k="1"><e>1</e><e>2</e></g></rec>`, `<rec id="a"><qty>1</qty><g k="2"><e>1</e><e>2</e></g></rec>`, "attribute of an element whose children form an array"}},
 	}
+	maybePairs := map[string][]pair{
+		"json": {{`{"id": 1234567890123456789, "qty": 1}`, `{"id": 1234567890123456790, "qty": 1}`, "integers beyond float64 resolution"},
+			{`{"id": 9007199254740993, "qty": 1}`, `{"id": 9007199254740992, "qty": 1}`, "2^53 + 1 vs 2^53"},
+			{`{"id": 0.1, "qty": 1}`, `{"id": 0.10000000000000001, "qty": 1}`, "decimals beyond float64 resolution"},
+			{`{"id": "a", "qty": 1}`, `{"id": "\u0061", "qty": 1}`, "an escape of the same character"},
+			{`{"id": 1e2, "qty": 1}`, `{"id": 100, "qty": 1}`, "two spellings of one number"}},
+		"xml": {{`<rec id="a"><qty>1</qty></rec>`, `<rec id="&#97;"><qty>1</qty></rec>`, "a character reference"},
+			{`<rec id="a"><qty>1</qty></rec>`, `<rec id="a"><qty> 1</qty></rec>`, "leading white space"}},
+		"csv": {{"a,1,\n", "\"a\",1,\n", "quoting"}, {"a,1,\n", "a ,1,\n", "trailing blank"}},
+	}
 	for _, f := range c10Formats() {
 		sch, err, p := newSchema([]byte(f.Schema))
 		if err != nil || p != "" {
@@ -201,6 +211,23 @@ func c15Sums(args []string) int {
 			events = append(events, M{"ev": "equal", "tr": len(events) + 1, "format": f.Name, "x": sumOf(rec), "y": sumOf(rec), "rec": rec})
 			sum.Traces++
 			sum.eval(true, M{"f": f.Name, "eq": rec})
+		}
+		// pairs of inputs that may or may not be the same value once ingested (numbers beyond float64 resolution, white
+		// space, escapes): IF the outputs differ the values differ, and so must the checksums
+		outOf := func(rec string) string {
+			o := transcriptOf(f.sch, bytes.NewReader([]byte(f.Wrap([]string{rec}))), 10)
+			if len(o.Results) == 0 {
+				return "NO-RESULT"
+			}
+			return o.Results[0].Class + " " + o.Results[0].Out
+		}
+		for _, pr := range maybePairs[f.Name] {
+			if oa, ob := outOf(pr.a), outOf(pr.b); oa != ob {
+				x, y := sumOf(pr.a), sumOf(pr.b)
+				events = append(events, M{"ev": "distinct", "tr": len(events) + 1, "format": f.Name, "x": x, "y": y, "a": pr.a, "b": pr.b, "what": pr.what + " (the outputs differ)"})
+				sum.Traces++
+				sum.eval(true, M{"f": f.Name, "a": pr.a, "b": pr.b})
+			}
 		}
 		for _, pr := range pairs[f.Name] {
 			x, y := sumOf(pr.a), sumOf(pr.b)
